@@ -37,7 +37,6 @@ REQUIRED = {"template[synthetic-unit-filled]": 10,
             "hardness_evaluations": 10, "fresh_process_references": 4,
             "hardness_iterable_executors": 6, "hardness_on_a_slow_machine": 4,
             "short_lived_instances_rated_by_one_objective": 20,
-            "instance_got_the_address_of_the_collected_one": 5,
             "decodes_from_a_reused_point_buffer": 50,
             "hardness_sibling_histories": 2, "errors_of_template_zero": 5,
             "extreme_value_vectors": 100}
